@@ -7,6 +7,10 @@ def run(ctx: Ctx) -> None:
     t6_transforms.run_histories(ctx, max_len=2 if ctx.tier == "quick" else 3)
     t6_transforms.run_regrid(ctx)
     t6_transforms.run_composite_histories(ctx)
+    from ..tables import t67_transforms
+    with ctx.only("T67.inverse-velocity"), ctx.parallel():  # inverse / link creation followed by reading the buffered field (shared with C07)
+        t67_transforms.run_inverse(ctx)
+    ctx.floor("T67.inverse-velocity", 30)
     ctx.floor("T6x.composite", 1)
     ctx.floor("T6x.linked-inverse", 2)
     ctx.floor("T6x.call-fresh", 16)
